@@ -197,7 +197,7 @@ class Model:
         self.live = {}      # current (volatile) namespace
         self.pending = {}   # dir -> list of ops ('link', name, ino) / ('unlink', name) / ('mkdir', name)
         self.fds = {}       # fd -> dict(ino=?, dir=?, off=int)
-        for root, dirs, files in os.walk(base):
+        for root, dirs, files in os.walk(base, followlinks=True):   # <base>/.tmp may be a link to another file system
             self.durable[root] = {}
             self.pending[root] = []
             for d in dirs:
@@ -482,7 +482,7 @@ def shape_key(tree, template):
 
 def read_tree(base):
     tree = {}
-    for root, dirs, files in os.walk(base):
+    for root, dirs, files in os.walk(base, followlinks=True):
         rd = os.path.relpath(root, base)
         for d in dirs:
             tree[os.path.normpath(os.path.join(rd, d))] = None
